@@ -197,7 +197,6 @@ def ob_mem_subscribe(n: int, nb: int, tpos: int, k: int, g1: int, g2: int, g3: i
     pre: 1 <= n <= SMAX and 0 <= nb <= n and 0 <= tpos < n and -1 <= k < tpos
     pre: 0 <= g1 <= GMAX and 0 <= g2 <= GMAX and 0 <= g3 <= GMAX and 0 <= slow <= GMAX
     pre: (n > 1 and nb <= 1 or g1 == 0) and (n > 2 and nb <= 2 or g2 == 0) and (n > 3 and nb <= 3 or g3 == 0)
-    pre: not (k >= nb)
     post: _
     """
     st = MemoryWorkflowStore()
